@@ -151,6 +151,7 @@ func cmdHTML(args []string) *Result {
 			m = 200000
 		}
 		src.mixed(m, emit)
+		src.structured(thorough, emit)
 		fragmentProducts(2, fragments, emit)
 	}
 	return res
